@@ -76,6 +76,8 @@ KERNELS = {
     # KT4C: the two `_old` kernels of the legacy streamed forms of Session.ordered_merge_left / _right
     "generate_ordered_map_to_left_right_unique_partial_old": {"owner": "C19", "mutated": [3]},   # (i, j, unmapped), left_to_right
     "ordered_map_valid_partial_old": {"owner": "C19", "mutated": [3]},                           # (i, val), result
+    # a generator: the translation returns the lists of the yielded components (starts, ends); `generator` = their number
+    "chunks": {"owner": "C19", "generator": 2},
 }
 C08_NOSRC = ("apply_spans_count", "apply_spans_index_of_first", "apply_spans_index_of_last")
 C08_REDUCE = ("apply_spans_count", "apply_spans_first", "apply_spans_last", "apply_spans_max", "apply_spans_min",
@@ -1172,11 +1174,23 @@ def random_c19_old(rng, n_cases):
     return out
 
 
+def random_c19_chunks(rng, n_cases):
+    """`chunks(length, chunksize)` for chunksize ≥ 1 (any length, negative included) and for a chunksize ≤ 0 with a length ≤ 0
+    (a chunksize ≤ 0 with a positive length never ends: not executed)"""
+    out = []
+    for t in range(n_cases):
+        n = rng.choice([0, 1, 2, 7, rng.randrange(0, 60), rng.randrange(-3, 1)])
+        cs = rng.choice([1, 1, 2, 3, 4, rng.randrange(1, 70), 1 << 20]) if n > 0 or rng.random() < 0.7 else rng.randrange(-3, 1)
+        out.append(gcase("chunks", [{"int": n}, {"int": cs}], fuel=max(n, 0) + 1, _from="random"))
+    return out
+
+
 def _random_c19_with_old(rng, n_cases):
-    """the share of the two `_old` kernels among the seeded direct calls of C19 (≥ 54 each per quick run)"""
+    """the share of the two `_old` kernels and of `chunks` among the seeded direct calls of C19 (≥ 54 each per quick run)"""
     nk = sum(1 for v in KERNELS.values() if v["owner"] == "C19")
-    n_old = 2 * n_cases // max(nk, 2)
-    return random_c19(rng, n_cases - n_old) + random_c19_old(rng, n_old)
+    n_old = 2 * n_cases // max(nk, 3)
+    n_ch = n_cases // max(nk, 3)
+    return random_c19(rng, n_cases - n_old - n_ch) + random_c19_old(rng, n_old) + random_c19_chunks(rng, n_ch)
 
 
 RANDOM["C19"] = _random_c19_with_old
@@ -1264,6 +1278,12 @@ def impl(case):
     fn = getattr(ops, case["kernel"])
     args = [_decode(np, a) for a in case["args"]]
     ret = fn(*args)
+    ncomp = KERNELS.get(case["kernel"], {}).get("generator")
+    if ncomp:
+        # a generator: exhaust it; the translation returns one list per yielded component
+        items = [x if isinstance(x, tuple) else (x,) for x in ret]
+        cols = [[int(x[j]) for x in items] for j in range(ncomp)]
+        return {"val": cols[0] if ncomp == 1 else cols}
     # a kernel without `return` yields None: its result is what it stored into its array parameters
     parts = [] if ret is None else [_canon(np, x) for x in ret] if isinstance(ret, tuple) else [_canon(np, ret)]
     mutated = KERNELS.get(case["kernel"], {}).get("mutated") or []
